@@ -25,6 +25,9 @@ pub struct Case {
     secs: u32,
     /// (start_s, len_s) outages during which nobody answers
     outages: Vec<(u32, u32)>,
+    /// extra contacts that the puppets name but to which every send_to fails with an io error
+    #[serde(default)]
+    unsendable: u8,
     rt_seed: u64,
 }
 
@@ -46,16 +49,19 @@ impl Stage for Cadence {
             any::<bool>(),
             prop_oneof![2 => 600u32..2400, 2 => 1800u32..max],
             prop_oneof![2 => Just(vec![]), 1 => vec((0u32..7000, 1u32..900), 1..4)],
+            prop_oneof![2 => Just(0u8), 1 => 1u8..4],
             any::<u64>(),
         )
-            .prop_map(|(v6, puppets, gossip, secs, outages, rt_seed)| Case { v6, puppets, gossip, secs, outages, rt_seed })
+            .prop_map(|(v6, puppets, gossip, secs, outages, unsendable, rt_seed)| Case { v6, puppets, gossip, secs, outages, unsendable, rt_seed })
             .boxed()
     }
     fn run(&self, c: &Case) -> Outcome {
         let rt = paused_rt(c.rt_seed);
         rt.block_on(async {
             counters::reset();
-            let net = SimNet::new(Box::new(Instant0));
+            let bad: Vec<SocketAddr> = (0..c.unsendable).map(|i| fam_addr(c.v6, 800 + i as u16, 7000)).collect();
+            let bad2 = bad.clone();
+            let net = SimNet::new(Box::new(move |d: &Dgram| if bad2.contains(&d.to) { Fate::SendError } else { Fate::Deliver(vec![Duration::ZERO]) }));
             let node = fam_addr(c.v6, 1, 6881);
             let node_id: Id = [0x18; 20];
             let outages = Arc::new(c.outages.clone());
@@ -66,9 +72,16 @@ impl Stage for Cadence {
                 id[1] = i;
                 names.push((id, fam_addr(c.v6, 100 + i as u16, 7000)));
             }
+            let mut named_all: Vec<(Id, SocketAddr)> = if c.gossip { names.clone() } else { vec![] };
+            for (i, a) in bad.iter().enumerate() {
+                let mut id = [0u8; 20];
+                id[0] = 0x40 | i as u8;
+                id[3] = 0xbd;
+                named_all.push((id, *a));
+            }
             for (id, a) in names.clone() {
                 let outages = outages.clone();
-                let named = if c.gossip { names.clone() } else { vec![] };
+                let named = named_all.clone();
                 spawn_puppet(&net, a, move |_raw, msg, from, now| {
                     let s = now.as_secs() as u32;
                     if outages.iter().any(|(a, l)| s >= *a && s < a + l) {
@@ -122,7 +135,7 @@ impl Stage for Cadence {
         })
     }
     fn rule(&self) -> String {
-        "one real serving node with 1..9 answering contacts (fewer than 10 good nodes: re-bootstrap every ~5 s) or 12..20 (no re-bootstrap), optional outages, contacts naming each other or not; run length 10 min..2 h (thorough: ..12 h); hook counters sampled every 2.5 virtual seconds. Oracle: for all sample pairs t1<t2, refresh rounds in (t1,t2] <= (t2-t1)/6 s + 1 + bootstrap completions in (t1,t2]; never more than one refresh check pending. Non-trivial: >= 20 bootstrap completions and run >= 30 min".into()
+        "one real serving node with 1..9 answering contacts (fewer than 10 good nodes: re-bootstrap every ~5 s) or 12..20 (no re-bootstrap), optional outages, contacts naming each other or not, optionally 1..3 named contacts to which every send fails with an io error; run length 10 min..2 h (thorough: ..12 h); hook counters sampled every 2.5 virtual seconds. Oracle: for all sample pairs t1<t2, refresh rounds in (t1,t2] <= (t2-t1)/6 s + 1 + bootstrap completions in (t1,t2]; never more than one refresh check pending. Non-trivial: >= 20 bootstrap completions and run >= 30 min".into()
     }
     fn watchdog_secs(&self, tier: Tier) -> u64 {
         tier.pick(900, 3600)
